@@ -51,7 +51,7 @@ Extraction "model.ml"
   (* serde: Value's own impls (C17) and the serde_json bridge (C18) *)
   Z.opp Z.abs_N Z.ltb Z.to_N
   to_value from_value from_text from_sj into_sj ser_spec de_ok detour_ok collapse nodup_keysb
-  nums64 wf_nums wf_sj sj_eqb K1 K2 K3 K4 K5 K6 dbl valid_number is_int64 num_pres
+  nums64 wf_nums wf_sj sj_eqb K3 K4 dbl valid_number is_int64 num_pres
   (* json! macro *)
   expand tokens text value_of lexical_f64 dec_of_Z
   (* serde, typed data (C16) *)
